@@ -245,3 +245,9 @@ pub fn __pos_not_ones(s: &[u64]) -> (r: Option<usize>)
             None => forall|j: int| 0 <= j < s.len() ==> s[j] == 0xffff_ffff_ffff_ffffu64,
         }
 { unimplemented!() }
+
+//@ assume __last_is_zero64 : rule R12o: `v.last() == Some(&0)` for a Vec<u64>: v is non-empty and its last element is 0
+#[verifier::external_body]
+pub fn __last_is_zero64(v: &Vec<u64>) -> (r: bool)
+    ensures r == (v@.len() > 0 && v@[v@.len() - 1] == 0)
+{ unimplemented!() }
